@@ -50,6 +50,11 @@ func encodeXterm(key vaxis.Key, deckpam bool, decckm bool) string {
 		}
 	}
 
+	if key.Keycode == vaxis.KeyTab && xtermMods == vaxis.ModShift {
+		// backtab
+		return "\x1B[Z"
+	}
+
 	if val, ok := xtermKeymap[key.Keycode]; ok {
 		return fmt.Sprintf("\x1B[%d;%d%c", val.number, int(xtermMods)+1, val.final)
 	}
